@@ -21,38 +21,41 @@ import (
 
 // Job is one unit of work handed to a worker by the driver.
 type Job struct {
-	ID      int      `json:"id"`
-	Check   string   `json:"check"`
-	Tier    string   `json:"tier"`
-	Seed    uint64   `json:"seed"`
-	Tape    []uint32 `json:"tape,omitempty"`
-	Replay  bool     `json:"replay,omitempty"` // pure replay: an exhausted tape yields 0
-	Trace   bool     `json:"trace,omitempty"`  // return decoded schedule, ops, log
-	Variant string   `json:"variant,omitempty"`
-	Fork    []ForkStep `json:"fork,omitempty"`
+	ID    int    `json:"id"`
+	Check string `json:"check"`
+	Tier  string `json:"tier"`
+	// HashOnly: determinism self-test: the scheduled run only, no post-run
+	// enumerations (their sampling is bounded by wall-clock time)
+	HashOnly bool       `json:"hash_only,omitempty"`
+	Seed     uint64     `json:"seed"`
+	Tape     []uint32   `json:"tape,omitempty"`
+	Replay   bool       `json:"replay,omitempty"` // pure replay: an exhausted tape yields 0
+	Trace    bool       `json:"trace,omitempty"`  // return decoded schedule, ops, log
+	Variant  string     `json:"variant,omitempty"`
+	Fork     []ForkStep `json:"fork,omitempty"`
 }
 
 // Result is what a worker reports for one job.
 type Result struct {
-	ID         int        `json:"id"`
-	Check      string     `json:"check"`
-	Seed       uint64     `json:"seed"`
-	Violation  *Violation `json:"violation,omitempty"`
-	Harness    string     `json:"harness_error,omitempty"`
-	BudgetStop bool       `json:"budget_stop,omitempty"`
-	Stats      RunStats   `json:"stats"`
-	StateSigs  []uint64   `json:"state_sigs,omitempty"`
-	Tape       []uint32   `json:"tape,omitempty"`
-	Knobs      *Knobs     `json:"knobs,omitempty"`
-	Ops        []string   `json:"ops,omitempty"`
-	Sched      []string   `json:"sched,omitempty"`
-	LogTail    []string   `json:"log_tail,omitempty"`
-	Labels     []string   `json:"labels,omitempty"`
-	LogHash    string     `json:"log_hash,omitempty"`
-	Sample     any        `json:"sample,omitempty"`
-	Extra      map[string]any `json:"extra,omitempty"`
-	Fatal      bool       `json:"fatal,omitempty"` // worker must be restarted after this job
-	Observations []Violation `json:"observations,omitempty"`
+	ID           int            `json:"id"`
+	Check        string         `json:"check"`
+	Seed         uint64         `json:"seed"`
+	Violation    *Violation     `json:"violation,omitempty"`
+	Harness      string         `json:"harness_error,omitempty"`
+	BudgetStop   bool           `json:"budget_stop,omitempty"`
+	Stats        RunStats       `json:"stats"`
+	StateSigs    []uint64       `json:"state_sigs,omitempty"`
+	Tape         []uint32       `json:"tape,omitempty"`
+	Knobs        *Knobs         `json:"knobs,omitempty"`
+	Ops          []string       `json:"ops,omitempty"`
+	Sched        []string       `json:"sched,omitempty"`
+	LogTail      []string       `json:"log_tail,omitempty"`
+	Labels       []string       `json:"labels,omitempty"`
+	LogHash      string         `json:"log_hash,omitempty"`
+	Sample       any            `json:"sample,omitempty"`
+	Extra        map[string]any `json:"extra,omitempty"`
+	Fatal        bool           `json:"fatal,omitempty"` // worker must be restarted after this job
+	Observations []Violation    `json:"observations,omitempty"`
 }
 
 var scratchRoot string
@@ -159,8 +162,11 @@ var (
 
 var goroutineHdr = regexp.MustCompile(`(?m)^goroutine (\d+) \[([a-z ]+)`)
 
-func spinningBlugeGoroutines(dump string) map[string]string {
-	rv := map[string]string{}
+// spinningBlugeGoroutines maps every running / runnable goroutine of the dump
+// that has a frame of package bluge/index to those frames' functions,
+// innermost first.
+func spinningBlugeGoroutines(dump string) map[string][]string {
+	rv := map[string][]string{}
 	for _, blk := range strings.Split(dump, "\n\n") {
 		m := goroutineHdr.FindStringSubmatch(blk)
 		if m == nil || (m[2] != "running" && m[2] != "runnable") {
@@ -171,8 +177,7 @@ func spinningBlugeGoroutines(dump string) map[string]string {
 				if i := strings.LastIndex(l, "("); i > 0 {
 					l = l[:i]
 				}
-				rv[m[1]] = l
-				break
+				rv[m[1]] = append(rv[m[1]], l)
 			}
 		}
 	}
@@ -208,9 +213,19 @@ func startWatchdog() {
 			r, job := curRun.Load(), curJob.Load()
 			res := &Result{ID: job.ID, Check: job.Check, Seed: job.Seed, Fatal: true}
 			var spin []string
-			for g, f := range s1 {
-				if s2[g] == f {
-					spin = append(spin, fmt.Sprintf("goroutine %s in %s", g, f))
+			// the same goroutine runs bluge/index code in both dumps: the
+			// innermost function its two stacks share holds the loop (the
+			// innermost frames themselves differ from dump to dump)
+			for g, fs := range s1 {
+				in2 := map[string]bool{}
+				for _, f := range s2[g] {
+					in2[f] = true
+				}
+				for _, f := range fs {
+					if in2[f] {
+						spin = append(spin, fmt.Sprintf("goroutine %s in %s", g, f))
+						break
+					}
 				}
 			}
 			sort.Strings(spin)
@@ -297,7 +312,7 @@ func runJob(t *testing.T, job *Job) (res *Result) {
 	res.Stats = r.stats
 	res.StateSigs = r.stats.StateSigs
 	res.Knobs = r.k
-	if r.p.PostRun != nil && r.viol == nil && res.Harness == "" && !r.budgetStop {
+	if r.p.PostRun != nil && r.viol == nil && res.Harness == "" && !r.budgetStop && !job.HashOnly {
 		r.p.PostRun(r, res)
 		res.Stats.Images = r.stats.Images + res.Stats.Images
 	}
@@ -319,7 +334,7 @@ func runJob(t *testing.T, job *Job) (res *Result) {
 			}
 		}
 	}
-	if job.Trace && r.s != nil {
+	if r.s != nil {
 		res.LogHash = logHash(r.s)
 	}
 	return res
